@@ -824,7 +824,7 @@ def run(ctx, only_history=None):
     rng = C.Rng(ctx.seed, "C07")
     thorough = ctx.tier == "thorough"
     merge_local_known_findings(ctx)
-    ctx.rule = ("operation histories of <= 10 operations (+ closing refresh/call) over {call(pos?, seed?, store raw_krige?), set_pos, "
+    ctx.rule = ("operation histories of <= 10 operations (+ closing refresh/call) over {call(pos?, seed?, store raw_krige?, chunk_size none/1/not dividing/> n), set_pos, "
                 "set_condition(new values / new positions / refresh), in-place model change, model / mean / trend / normalizer re-assignment, "
                 "set_generator, in-place edit of the caller's position array, direct krige(pos?) call, csrf.pos = ...}, positions passed as "
                 "float64 ndarrays (aliasing-prone), dim 1-3, simple/ordinary/universal kriging, scalar and callable trend, YeoJohnson/Modulus "
